@@ -54,6 +54,7 @@ def main (args : List String) : IO UInt32 := do
     | "C03" => genC03 t s o
     | "C07" => genC07 t s o
     | "C18" => genC18 t s o
+    | "C11p" => genC11p t s o
     | "C01" => genC01 t s o
     | "C20" => genC20 t s o
     | "C06" => genC06 t s o
